@@ -72,8 +72,8 @@ fn run(ctx: &Ctx) {
         }
     }
     ctx.run_enum("cells", cells, true, "25 states x 2 directions x (17 handshake kinds + ClientHello with session id + CCS + 65536 alerts + application data + heartbeat)", cases.into_iter());
-    ctx.run_tape("content", content, ctx.pick(20_000, 2_000_000), 256);
-    ctx.run_tape("sequences", sequences, ctx.pick(10_000, 500_000), 200);
+    ctx.run_tape("content", content, ctx.pick(80_000, 2_000_000), 256);
+    ctx.run_tape("sequences", sequences, ctx.pick(40_000, 500_000), 200);
 }
 
 fn res_to_model(r: Result<TlsState, StateChangeError>) -> Result<Result<usize, ()>, Fail> {
